@@ -203,6 +203,10 @@ func (c *FnCtx) execRegion(fr *Frame, blocks map[*ssa.BasicBlock]bool, start *ss
 			// cover check: the block must be reachable under the contracts in force
 			o := c.oblige("canary", fmt.Sprintf("block%d", b.Index), r, "false", c.eng.posOf(firstPos(b)), "vacuity canary: basic block reachable", nil)
 			o.Canary = true
+			o.BlockCanary = true
+			c.curBlockCanary = o
+		} else if fr == c.top && c.dry == 0 {
+			c.curBlockCanary = nil
 		}
 		if li := rr.headerOf[b]; li != nil && li != dryLoop {
 			c.enterLoop(bc, li, rr)
@@ -272,6 +276,10 @@ func (c *FnCtx) execInstr(bc *blockCtx, instr ssa.Instruction, rr *regionRun) {
 				return
 			}
 			c.writeLoc(st, l, zeroVal(t))
+			// typestate of sync.Once / mutex fields of a new object: not done, not held
+			if _, isStruct := t.Underlying().(*types.Struct); isStruct {
+				c.initSyncState(st, t, t, nil, ref)
+			}
 		}
 	case *ssa.Store:
 		addr := c.operand(bc, x.Addr)
@@ -1428,6 +1436,32 @@ func (c *FnCtx) wideDeferEffects(bc *blockCtx, d deferEntry) {
 			whole("CH:waited", arrSort("Bool"))
 		default:
 			c.havocTargets(bc.st, []modTarget{t})
+		}
+	}
+}
+
+// initSyncState sets the ghost typestate of every sync.Once (not done) and sync.Mutex /
+// sync.RWMutex (not held) field of a freshly allocated struct of type root.
+func (c *FnCtx) initSyncState(st *State, root, t types.Type, path []int, ref string) {
+	stt, ok := t.Underlying().(*types.Struct)
+	if !ok {
+		return
+	}
+	for i := 0; i < stt.NumFields(); i++ {
+		ft := stt.Field(i).Type()
+		np := append(append([]int(nil), path...), i)
+		if n, ok := ft.(*types.Named); ok && n.Obj().Pkg() != nil && n.Obj().Pkg().Path() == "sync" {
+			p, _ := pathString(root, np)
+			switch n.Obj().Name() {
+			case "Once":
+				c.heapStore(st, "ONCE:"+typeKey(root)+p, arrSort("Bool"), ref, "false")
+			case "Mutex", "RWMutex":
+				c.heapStore(st, "LK:"+typeKey(root)+p, arrSort("Int"), ref, "0")
+			}
+			continue
+		}
+		if _, ok := ft.Underlying().(*types.Struct); ok {
+			c.initSyncState(st, root, ft, np, ref)
 		}
 	}
 }
